@@ -82,6 +82,38 @@ def dtype_oracle(run, n_per_class):
                         rec("segment." + name + ".track", "Segment", dt, wrong(out, dt), lat)
             except Exception:
                 run.count("optim_exception")
+        # merging a run of skippable elements that starts with a Marker / inactive BPM (their placeholder length is float32)
+        for first in ("Marker", "BPM"):
+            lat = {"cls": "Segment", "name": "s", "es": [
+                {"cls": first, "name": "m0", "kw": {}},
+                {"cls": "Drift", "name": "d1", "kw": {"length": 0.3123456789012345, "tracking_method": "cheetah"}},
+                {"cls": "Quadrupole", "name": "q1", "kw": {"length": 0.2, "k1": 1.2345678901234567, "tracking_method": "cheetah"}},
+                {"cls": "Aperture", "name": "a1", "kw": {"x_max": 1.0, "y_max": 1.0, "shape": "rectangular", "is_active": True}},
+                {"cls": first, "name": "m2", "kw": {}},
+                {"cls": "Drift", "name": "d2", "kw": {"length": 0.1, "tracking_method": "cheetah"}}]}
+            try:
+                seg = realgen.build(lat, tdt)
+                for bt in ("particle", "parameter"):
+                    b = realgen.build_beam(realgen.gen_particle_beam(run.rng) if bt == "particle" else realgen.gen_parameter_beam(run.rng), tdt)
+                    merged = seg.transfer_maps_merged(b)
+                    run.add_case(["dtype", dt, "merged_leading_" + first, bt], True)
+                    w = {n: d for n, d in wrong(merged, dt).items() if "predefined_transfer_map" in n or n.endswith("length") and "combined" in n}
+                    w = {n: d for n, d in wrong(merged, dt).items() if not n.split(".")[-1] == "length" or "elements.0" in n or "elements.2" in n}
+                    tm_bad = {n: d for n, d in wrong(merged, dt).items() if n.endswith("predefined_transfer_map")}
+                    if tm_bad:
+                        rec("segment.merged(leading " + first + ")", "Segment", dt, tm_bad, lat)
+                    try:
+                        out = merged.track(b)
+                        ref = seg.track(b)
+                        if wrong(out, dt):
+                            rec("segment.merged(leading " + first + ").track", "Segment", dt, wrong(out, dt), lat)
+                        elif realgen.beams_close(out, ref, rtol=1e-6 if dt == "float32" else 1e-12, atol=1e-9 if dt == "float32" else 1e-16):
+                            rec("segment.merged(leading " + first + ").track", "Segment", dt, "merged lattice tracks differently beyond round-off of " + dt, lat)
+                    except Exception as ex:
+                        rec("segment.merged(leading " + first + ").track", "Segment", dt, f"{type(ex).__name__}: {str(ex)[:120]}", lat)
+            except Exception as ex:
+                # building / merging a plain lattice of this dtype must not raise (e.g. a dtype mismatch inside the merge)
+                rec("segment.merged(leading " + first + ")", "Segment", dt, f"{type(ex).__name__}: {str(ex)[:160]}", lat)
         # beam constructors and transformations
         kw = dict(dtype=tdt)
         tw = dict(beta_x=torch.tensor(2.0, dtype=tdt), alpha_x=torch.tensor(0.5, dtype=tdt), emittance_x=torch.tensor(1e-8, dtype=tdt),
@@ -229,6 +261,27 @@ def accuracy_oracle(run):
                 bad.append({"kind": "accuracy", "what": "Quadrupole.transfer_map float64 vs 40-digit reference", "entry": [i, j], "rel_err": e64, "params": [L, k1, E]})
             if e32 > 2e-5:
                 bad.append({"kind": "accuracy", "what": "Quadrupole.transfer_map float32 vs float64", "entry": [i, j], "rel_err": e32, "params": [L, k1, E]})
+    # (4b) active cavity: outgoing delta of off-crest / long-bunch particles, float64 vs 40-digit evaluation of the coded formula
+    from scipy import constants as _c
+    for L, V, ph, f, E in [(1.0, 2e7, 30.0, 1.3e9, 1e8), (0.5, 5e6, -60.0, 2.998e9, 2e7), (1.0, 1e7, 0.0, 1.3e9, 5e7)]:
+        cav = cheetah.Cavity(torch.tensor(L, dtype=tdt), voltage=torch.tensor(V, dtype=tdt), phase=torch.tensor(ph, dtype=tdt),
+                             frequency=torch.tensor(f, dtype=tdt), dtype=tdt)
+        ps = [[1e-4, 1e-5, -2e-4, 2e-5, 3e-3, 1e-3, 1.0], [0.0, 0.0, 0.0, 0.0, -5e-3, -2e-3, 1.0], [2e-4, 0.0, 1e-4, 0.0, 1e-2, 0.0, 1.0]]
+        out = cav.track(cheetah.ParticleBeam(torch.tensor(ps, dtype=tdt), torch.tensor(E, dtype=tdt), dtype=tdt))
+        phi = mp.mpf(ph) * mp.pi / 180
+        E1 = mp.mpf(E) + mp.mpf(V) * mp.cos(phi)
+        g0, g1 = mp.mpf(E) / mec2, E1 / mec2
+        b0, b1 = mp.sqrt(1 - 1 / g0 ** 2), mp.sqrt(1 - 1 / g1 ** 2)
+        k = 2 * mp.pi * mp.mpf(f) / mp.mpf(_c.speed_of_light)
+        run.add_case(["accuracy", "cavity_delta", L, V, ph, f, E], True)
+        for i, p in enumerate(ps):
+            tau, dl = mp.mpf(p[4]), mp.mpf(p[5])
+            ref = dl * mp.mpf(E) * b0 / (E1 * b1) + mp.mpf(V) * b0 / (E1 * b1) * (mp.cos(-tau * b0 * k + phi) - mp.cos(phi))
+            got = float(out.particles[i, 5])
+            err = abs(got - float(ref)) / max(abs(float(ref)), 1e-6)
+            if err > 1e-11:
+                bad.append({"kind": "accuracy", "what": "Cavity.track delta in float64 vs 40-digit reference", "rel_err": err, "params": [L, V, ph, f, E],
+                            "particle": p, "got": got, "expected": float(ref)})
     # (5) tracking through a small lattice: float32 vs float64
     for _ in range(10):
         lat = realgen.gen_lattice(run.rng, n_max=4, depth=0, method="cheetah",
